@@ -8,4 +8,5 @@ CONSTANTS
   Fates = {"served"}
   Depth = 0
 INVARIANT Invariants
+PROPERTY RefinesRateProof
 CHECK_DEADLOCK FALSE
